@@ -118,7 +118,7 @@ loop:
 		for _, r := range readers {
 			r.cancel()
 		}
-		if !verifOutGuard(2*time.Second, func() { o.InterruptGetNext() }) {
+		if !verifOutGuard(verifOutWait(10*time.Second), func() { o.InterruptGetNext() }) {
 			return strings.Join(out, " ")
 		}
 	cleanup:
